@@ -296,6 +296,10 @@ pub fn run(ctx: &Ctx, profile: Profile) -> i32 {
         Profile::C18 => ctx.runs(1500, 150_000),
         _ => 0,
     };
+    let n_mid: u64 = match profile {
+        Profile::C01 | Profile::C08 => ctx.runs(120, 12_000),
+        _ => 0,
+    };
     let (acc, fail) = par_fold(
         n,
         ctx.workers,
@@ -316,6 +320,11 @@ pub fn run(ctx: &Ctx, profile: Profile) -> i32 {
             } else if run < n_giant + 2 * n_xxl + n_mega {
                 acc.probes.inc("shape_hoarded_flood");
                 crate::sim::simulate_mega(run_seed(seed, stream + 4000, run), profile, oracles, false)
+            } else if run < n_giant + 2 * n_xxl + n_mega + n_mid {
+                // one block of 200..420 symbols: the largest sizes for which twin symbols are at hand,
+                // so that a solve of a block this large fails (rank-deficient) in many of these runs
+                acc.probes.inc("shape_medium_block_with_twins");
+                simulate_band(run_seed(seed, stream + 6000, run), profile, oracles, false, 200, 420)
             } else if n_hist > 0 && run < n_hist {
                 acc.probes.inc("shape_thread_history_session");
                 crate::sim::simulate_history(run_seed(seed, stream + 5000, run), profile, oracles, false)
@@ -372,7 +381,7 @@ pub fn run(ctx: &Ctx, profile: Profile) -> i32 {
                 acc.shapes.insert(d.finish64());
             }
             // samples: the first large single-block run (if any) and the first two ordinary runs
-            let first_ordinary = n_giant + 2 * n_xxl + n_mega;
+            let first_ordinary = n_giant + 2 * n_xxl + n_mega + n_mid;
             if (n_giant > 0 && run == 0) || (run >= first_ordinary && run < first_ordinary + 2) {
                 acc.samples.push(sample_of(run, &out.scenario, out.ticks));
             }
@@ -432,6 +441,9 @@ pub fn run(ctx: &Ctx, profile: Profile) -> i32 {
     }
     if n_mega > 0 {
         probes.add("shape_hoarded_flood", acc.probes.get("shape_hoarded_flood"));
+    }
+    if n_mid > 0 {
+        probes.add("shape_medium_block_with_twins", acc.probes.get("shape_medium_block_with_twins"));
     }
     if violations.is_empty() {
         for z in probes.zeros() {
